@@ -15,7 +15,7 @@ deriving Repr, DecidableEq
 
 inductive Msg where
   | eth (sender : Nat)                              -- MsgEthereumTx, `sender` recovered from the signature
-  | comm (operator : Nat) (rate : Nat)              -- MsgCreateValidator / MsgEditValidator with a commission rate in percent
+  | comm (operator : Nat) (rate : Nat)              -- MsgCreateValidator / MsgEditValidator with a commission rate in units of 10⁻¹⁸ (the raw LegacyDec integer)
   | send (signer : Nat)                             -- any other ordinary message
   | grant (granter grantee : Nat) (k : Kind)        -- authz MsgGrant with a generic authorization for message kind k
   | exec (grantee : Nat) (inner : List Msg)         -- authz MsgExec
@@ -34,12 +34,13 @@ def Msg.signer : Msg → Nat
 
 structure State where
   grants     : List (Nat × Nat × Kind) := []       -- (granter, grantee, kind)
-  commission : List (Nat × Nat) := []              -- operator ↦ rate (percent)
+  commission : List (Nat × Nat) := []              -- operator ↦ rate (raw LegacyDec, 10⁻¹⁸)
   ethRuns    : Nat := 0                            -- how often the EthereumTx handler ran outside the EVM ante pipeline
   ethLegit   : Nat := 0                            -- … behind it
 deriving Repr, Inhabited
 
-def cap : Nat := 25
+/-- 25% as a raw LegacyDec: 0.25 · 10¹⁸ -/
+def cap : Nat := 250000000000000000
 def govAcct : Nat := 4
 
 def hasGrant (s : State) (granter grantee : Nat) (k : Kind) : Bool :=
